@@ -406,7 +406,7 @@ class Interp:
     def get_attr(self, obj, name, spec=False):
         if isinstance(obj, SObj) or (hasattr(obj, "__dict__") and not isinstance(obj, (type, types.ModuleType, types.FunctionType))
                                      and self.is_repo_class(type(obj)) and not isinstance(obj, enum.Enum)):
-            return self.get_attr_instance(obj, name)
+            return self.get_attr_instance(obj, name, spec)
         if isinstance(obj, SuperProxy):
             inst = obj.obj
             cls = inst.cls if isinstance(inst, SObj) else (inst if isinstance(inst, type) else type(inst))
@@ -478,7 +478,7 @@ class Interp:
             return self.native(a.__get__, inst, cls)
         return a
 
-    def get_attr_instance(self, obj, name):
+    def get_attr_instance(self, obj, name, spec=False):
         cls = obj.cls if isinstance(obj, SObj) else type(obj)
         if name == "__class__":
             return cls
@@ -499,6 +499,11 @@ class Interp:
             return self.call(ga, (obj, name), {})
         if not isinstance(obj, SObj):
             return self.native(getattr, obj, name)
+        if spec and name.startswith("_") and not name.startswith("__") and self.is_repo_class(cls):
+            # specification code reads a private attribute that the object does not have: the contract was written over
+            # another representation of the class (a renamed or restructured private field) - nothing can be concluded
+            raise Unsupported("the specification reads %s.%s, which the object does not have (the contract is written "
+                              "over another representation of the class)" % (cls.__name__, name))
         self.py_raise(AttributeError, "'%s' object has no attribute '%s'" % (cls.__name__, name))
 
     def has_attr(self, obj, name):
